@@ -21,6 +21,11 @@ Proof.
   unfold build_entry in Hb. rewrite Hidx in Hb.
   destruct (N.ltb_spec no1 16) as [Hn1|Hn1]; cbn [andb negb] in Hb; [|discriminate].
   destruct (N.ltb_spec no2 16) as [Hn2|Hn2]; cbn [andb negb] in Hb; [|discriminate].
+  fold (sub_type (e_type e)) in Hb.
+  assert (Hb' : pack fmt_sdentry [VI (e_type e); VI oi1; VI oi2; VI (N.lor (N.shiftl no1 4) no2); VI (e_sid e); VI (e_iid e);
+                                  VI (e_maj e); VI (N.shiftr (e_ttl e) 16); VI (N.land (e_ttl e) 65535); VI (e_val e)] = Ok b).
+  { destruct (sub_type (e_type e)) eqn:Es0; cbn [andb] in Hb; [rewrite (Hval eq_refl) in Hb; cbn [N.eqb negb] in Hb|]; exact Hb. }
+  clear Hb. rename Hb' into Hb.
   unfold parse_entry. rewrite (unpack_pack _ _ _ _ Hb). cbn [bind].
   rewrite Hty. cbn [negb].
   change 15 with (N.ones 4). change 65535 with (N.ones 16).
@@ -36,7 +41,7 @@ Qed.
 Lemma entry_len e b : build_entry e = Ok b -> len b = 16.
 Proof.
   unfold build_entry. destruct (e_idx e) as [[[[oi1 oi2] no1] no2]|]; [|discriminate].
-  destruct (negb _); [discriminate|]. intros H. apply pack_len in H. exact H.
+  destruct (negb _); [discriminate|]. destruct (_ && _); [discriminate|]. intros H. apply pack_len in H. exact H.
 Qed.
 
 (* decode-encode-decode: an accepted entry re-encodes to exactly the consumed bytes *)
@@ -86,6 +91,9 @@ Proof.
       apply N.pow_le_mono_r; [lia|]. unfold len, takeN. rewrite firstn_length. lia. }
     rewrite Hs4. assert (Hl4 : N.land numopt (N.ones 4) <? 16 = true) by (apply N.ltb_lt; apply (land_ones_bound numopt 4)).
     rewrite Hl4. cbn [andb negb].
+    assert (Hif : ((ty =? ET_Subscribe) || (ty =? ET_SubscribeAck)) && negb (N.land val 4293918720 =? 0) = false).
+    { fold (sub_type ty). destruct (sub_type ty) eqn:Es0; cbn [andb]; [rewrite (Hvalc eq_refl); reflexivity|reflexivity]. }
+    rewrite Hif.
     rewrite split_join. rewrite join_hi by exact Htlo. rewrite join_lo by exact Htlo.
     rewrite <- Hvs. exact Hpack. }
   split; [exact Hwf|]. exists hdr. split; [exact Hbuild|]. split.
